@@ -10,6 +10,15 @@ Oracle on the implementation (independent of the model), from the real output:
     original position.
 Correspondence: per page, the Lean model's top/bottom grids and component overrides equal the observed styles.
 
+Recycled border patterns (`gen_patterns`): the user's border_top / border_bottom / border_left / border_right as a
+per-column pattern of every length 1 .. ncol+1 (flat list / one-row matrix), a per-row pattern of every length
+1 .. nrow+1 (tuple / one-column matrix), a matrix of both, or a scalar, on tables from which page_by (spanning rows) /
+subline_by take 1-4 columns out — leading or anywhere among the columns (permuted frames) — and on tables that keep their
+columns.  The oracle binds every pattern to the ORIGINAL table (`laygen.attr_at(value, original row, original column)`),
+so a short pattern whose cycle is shifted by the removed columns must still follow the original columns.  Documents of
+the whole-encoder class (harness/crosscorr.py) are judged by the same oracle: `cross_prepare` reads the page / body
+border settings from the spec.
+
 Section lists (df=[f0, …], rtf_body=[b0, …]; `gen_sections`): lists of 1, 2, 3, 4, 5, 6 sections — the one-element list
 included — with 0-row and 1-row sections in every position, per-section body borders, nested / flat / default header
 lists, footnote / source as table / paragraph / absent under every placement, on one page or with breaks inside sections;
@@ -21,7 +30,7 @@ data rows): explained-deviation function `known_filter`, stored inputs corpus/C0
 """
 from __future__ import annotations
 
-from .. import common, laygen, layfamily, rtfread
+from .. import common, docgen, laygen, layfamily, rtfread
 from . import c02
 
 MANIFEST = dict(
@@ -29,10 +38,14 @@ MANIFEST = dict(
          "border_first on the first data row as documented, the closing style (body.border_last inside the table, "
          "page.border_last at its end) on the last data row or on the table-rendered footnote/source that ends the "
          "page, all other edges untouched at their original rows. Tied to the code by observation over the border × "
-         "header × footnote/source × placement × pages × strategy product, single-frame documents and section lists of every "
+         "header × footnote/source × placement × pages × strategy product, user borders as full matrices and as recycled "
+         "per-column / per-row patterns of every length (1..ncol+1, 1..nrow+1; shorter and longer than the original "
+         "table) with and without removed columns, single-frame documents and section lists of every "
          "length from one section up (Props/C07encm: the page borders go to the first / last section of the list, the "
          "one-element list keeps both).",
-    note="Column-header top border and footnote/source row emission are checked on the observation only; when the "
+    note="User borders bind to the ORIGINAL table position (row, column) of a cell: a pattern is recycled over the original "
+         "columns / rows before page_by / subline_by columns are taken out. "
+         "Column-header top border and footnote/source row emission are checked on the observation only; when the "
          "user's border_top row is longer than border_first the code lets a non-empty border_top of TABLE row 0 "
          "override body.border_first (modelled; generated documents keep that row empty, see DESIGN.md C07). Open "
          "known finding C07-empty-edge-section: a first / last section (or single frame) with 0 data rows leaves the "
@@ -44,14 +57,30 @@ MANIFEST = dict(
 
 RULE = ("border styles (incl. '' = none) for rtf_page.border_first/last and rtf_body.border_first/last × header mode × footnote/source "
         "(table, paragraph, absent) × placement × 1..many pages × strategies × per-cell user border matrices (full, or 2-3-row patterns recycled over the rows); plus "
+        "recycled patterns for all four user borders: per-column patterns of length 1..ncol+1 (flat list / one-row matrix), "
+        "per-row patterns of length 1..nrow+1 (tuple / one-column matrix), matrices of both, scalars × 1-4 columns removed "
+        "by page_by / subline_by at the front or anywhere among the columns (and no removal) × 1-3 pages; plus "
         "multi-section documents for the first/last clauses; plus section lists of 1-6 sections (one-element list "
         "df=[frame] included) × 0-row / 1-row / longer sections in every position × per-section body border_first/last × "
         "nested / flat / default header lists × footnote/source (table, paragraph, absent) × placements × one page or "
         "breaks inside sections, and the 0-row single frame, for the first-row / last-row / page-boundary / section-joint "
-        "clauses; non-trivial = ≥ 2 pages, or a section list of length 1 or ≥ 4 or with a 0-/1-row section; distinct by "
+        "clauses; non-trivial = ≥ 2 pages, or a short column pattern whose cycle the removed columns shift, or a section "
+        "list of length 1 or ≥ 4 or with a 0-/1-row section; distinct by "
         "the configuration tuple and page sizes")
 
 STYLES = ["single", "double", "thick", "dotted", "dashed"]
+
+
+def mat_of(value, default):
+    """the nested list RTFBody holds for a border value: scalar → [[v]], flat list → one row, tuple → one column"""
+    v = docgen.plain(value)
+    if v is None:
+        return [[default]]
+    if not isinstance(v, list):
+        return [[v]]
+    if v and not isinstance(v[0], list):
+        return [v]
+    return v
 
 
 def code(style):
@@ -66,9 +95,12 @@ class C07(layfamily.Family):
     def nbase(self, tier):
         return 320 if tier == "quick" else 5000
 
+    def nsections(self, tier):
+        return 288 if tier == "quick" else 3000
+
     def ndocs(self, tier):
-        # the base product + the section-list family (gen_sections)
-        return self.nbase(tier) + (288 if tier == "quick" else 3000)
+        # the base product + the section-list family (gen_sections) + recycled border patterns (gen_patterns)
+        return self.nbase(tier) + self.nsections(tier) + self.npat(tier)
 
     def gen_multi(self, rng, k):
         """multi-section document (list of frames): the first/last clauses, and section joints are interior rows"""
@@ -267,7 +299,111 @@ class C07(layfamily.Family):
                                      f"last data row, but its top edge is {got}; the user's border_top is ''")
         return fails[:6]
 
+    # ------------------------------------------------------------------ recycled border patterns × removed columns
+    # strategies of the pattern stream: six of eight take columns out of the table (page_by spanning rows, subline_by)
+    PAT_STRATS = ["page_by", "subline", "page_by_np_first", "subline_page_by", "page_by", "plain", "subline", "page_by_np"]
+    SIDES = ["border_left", "border_bottom", "border_top", "border_right"]
+
+    def npat(self, tier):
+        return 224 if tier == "quick" else 3000
+
+    @staticmethod
+    def permute_columns(rng, spec, info):
+        """the frame's columns (and every row) in a random order: the removed columns sit anywhere among the others"""
+        cols = spec["df"]["cols"]
+        order = list(range(len(cols)))
+        rng.shuffle(order)
+        spec["df"]["cols"] = [cols[j] for j in order]
+        spec["df"]["rows"] = [[r[j] for j in order] for r in spec["df"]["rows"]]
+        removed = set(info["removed"])
+        info["displayed"] = [c for c in spec["df"]["cols"] if c not in removed]
+
+    def gen_patterns(self, rng, k):
+        """User borders given as PATTERNS that rtflite recycles over the ORIGINAL table: per-column patterns of every
+        length 1 .. ncol+1 (flat list or one-row matrix), per-row patterns of every length 1 .. nrow+1 (tuple or
+        one-column matrix), matrices of both, and scalars — for all four edges — on tables from which page_by (spanning
+        rows) / subline_by take 1-4 columns out, at the front or anywhere among the columns (permuted frames), and on
+        tables that keep all their columns.  A pattern shorter than the original column count whose cycle does not
+        divide the removed columns' positions is the case where "the user's border of that cell" binds to the original
+        column, not to the position among the displayed ones."""
+        strategy = self.PAT_STRATS[k % 8]
+        ndata = 2 + (k // 8) % 4
+        fk = ["absent", "para", "table"][k % 3]
+        sk = ["absent", "absent", "para", "table"][(k // 3) % 4]
+        pl3 = ["first", "last", "all"]
+        placements = (rng.choice(pl3), rng.choice(pl3), rng.choice(pl3))
+        target = [1, 2, 3][(k // 8) % 3]
+        nrow = rng.randint(6, 12)
+        n = max(1, (target - 1) * (nrow - 4) + rng.randint(1, 3))
+        spec, info = laygen.gen_spec(rng, strategy=strategy, n=n, nrow=nrow, ndata=ndata, footnote=fk, source=sk,
+                                     placements=placements, long_rows=False, dividers=False)
+        labels = []
+        if k % 3 != 0 and info["removed"]:
+            self.permute_columns(rng, spec, info)
+            labels.append("pattern:permuted columns (removed columns anywhere)")
+        pf, plast, bf, bl = (rng.choice(STYLES) for _ in range(4))
+        spec["page"]["border_first"] = pf
+        spec["page"]["border_last"] = plast
+        spec["body"]["border_first"] = bf
+        spec["body"]["border_last"] = bl
+        cols = spec["df"]["cols"]
+        ncols = len(cols)
+        rem_idx = [cols.index(c) for c in info["removed"]]
+        disp_idx = [cols.index(c) for c in info["displayed"]]
+        user, top0 = [], False
+        sides = rng.sample(self.SIDES, rng.choice([1, 2, 2, 3, 4, 4]))
+        for si, side in enumerate(sides):
+            shape = ["percol", "matrix", "percol-nested", "perrow", "matrix", "percol", "perrow-nested", "scalar"][
+                (k // 2 + si * 3 + rng.randrange(2)) % 8]
+            # column-pattern length 1 .. ncol+1 (every length by rotation; the short ones 2 .. ncol-1 twice as often)
+            lens = list(range(1, ncols + 2)) + list(range(2, ncols))
+            L = lens[(k // 8 + si) % len(lens)] if rng.random() < 0.7 else rng.randint(1, ncols + 1)
+            mlens = sorted({1, 2, 3, max(1, n - 1), n, n + 1, rng.randint(1, n + 1)})
+            M = mlens[(k // 4 + si) % len(mlens)]
+            if shape in ("percol", "percol-nested"):
+                M = 1
+            elif shape in ("perrow", "perrow-nested"):
+                L = 1
+            elif shape == "scalar":
+                M = L = 1
+
+            def style():
+                return rng.choice(STYLES + ["", ""])
+            m = [[style() for _ in range(L)] for _ in range(M)]
+            if L > 1 and len({tuple(r) for r in zip(*m)}) == 1:
+                m[0][rng.randrange(L)] = rng.choice([x for x in STYLES if x != m[0][0]])     # a real pattern, not a constant
+            if side == "border_top":
+                if M > 1 and (k % 6 != 5):
+                    m[0] = [""] * L     # see MANIFEST note: keep table row 0 empty
+                # a non-empty TABLE row 0 wider than the border_first row overrides body.border_first (modelled rule):
+                # the top-edge clause of the first data row is then judged against the model only
+                top0 = top0 or (L > 1 and any(m[0]))
+            if shape == "scalar":
+                v = m[0][0]
+            elif shape == "percol":
+                v = m[0]                                   # flat list: one value per column, recycled
+            elif shape == "perrow":
+                v = {"__tuple__": [r[0] for r in m]}       # tuple: one value per row, recycled
+            else:
+                v = m
+            spec["body"][side] = v
+            user.append(side)
+            labels.append(f"pattern:shape:{shape}")
+            if L > 1:
+                labels.append("pattern:cols:" + ("1<L<ncol" if L < ncols else "L=ncol" if L == ncols else "L=ncol+1"))
+            if M > 1:
+                labels.append("pattern:rows:" + ("1<M<nrow" if M < n else "M=nrow" if M == n else "M=nrow+1"))
+            if rem_idx and 1 < L < ncols:
+                shifted = any(m[r][oc % L] != m[r][j % L] for r in range(M) for j, oc in enumerate(disp_idx))
+                labels.append("pattern:short column pattern × removed columns" + (": cycle shifted by the removal" if shifted else ""))
+                labels.append(f"pattern:short column pattern × removed columns:{side}")
+        info.update(pf=pf, pl=plast, bf=bf, bl=bl, user=sorted(user), top0=top0, gen="patterns",
+                    labels=sorted(set(labels)))
+        return spec, info
+
     def gen(self, rng, k, tier):
+        if k >= self.nbase(tier) + self.nsections(tier):
+            return self.gen_patterns(rng, k - self.nbase(tier) - self.nsections(tier))
         if k >= self.nbase(tier):
             return self.gen_sections(rng, k - self.nbase(tier))
         if k % 8 == 7:
@@ -313,6 +449,22 @@ class C07(layfamily.Family):
         return spec, info
 
     # ------------------------------------------------------------------ observation helpers
+    def cross_prepare(self, spec, info):
+        """documents of the whole-encoder class (harness/crosscorr.py) carry their border settings in the spec: the
+        oracle's facts (page / body border_first / border_last as the constructors default them, which sides carry user
+        borders, whether border_top has a non-empty table row 0) are read from there.  Settings in a form the oracle
+        does not read (lists for border_first / border_last) leave the document to the projection comparison."""
+        if spec.get("kind", "table") != "table" or not isinstance(spec.get("df"), dict) or "displayed" not in info:
+            return info
+        page, body = spec.get("page") or {}, spec.get("body") or {}
+        vals = dict(pf=page.get("border_first", "double"), pl=page.get("border_last", "double"),
+                    bf=body.get("border_first", "single"), bl=body.get("border_last", "single"))
+        if not all(isinstance(v, str) for v in vals.values()):
+            return info
+        top = mat_of(body.get("border_top"), "")
+        return dict(info, user=sorted(s for s in self.SIDES if body.get(s) is not None),
+                    top0=bool(top and len(top[0]) > 1 and any(top[0])), **vals)
+
     def cross_extra(self, spec, info, ob):
         """documents of the whole-encoder class (harness/crosscorr.py): the border style of every edge of every table
         row, by page and role"""
@@ -336,10 +488,9 @@ class C07(layfamily.Family):
         pb_no_header_excl = bool(info["page_by"]) and (not info["new_page"] or info["pageby_row"] != "column")
 
         def user(side, r, oc, default):
-            m = body.get(side)
-            if m is None:
-                return default
-            return m[r % len(m)][oc % len(m[0])]
+            # the user's border of table row r, ORIGINAL column oc: scalar | per-column list | per-row tuple | matrix,
+            # recycled over the original table
+            return laygen.attr_at(body.get(side), r, oc, default)
         rowroles = ("colHeader", "heading", "data", "footnote", "source")
         for pno, (blocks, rb) in enumerate(zip(pages, raws), 1):
             tbl = [(b, r) for b, r in zip(blocks, rb) if b[0] in rowroles and (b[0] not in ("footnote", "source") or b[1])]
@@ -419,10 +570,8 @@ class C07(layfamily.Family):
         P = len(ob["pages"])
 
         def processed(side, default):
-            m = body.get(side)
-            if m is None:
-                return [[default]]
-            if removed:
+            m = mat_of(body.get(side), default)
+            if removed and body.get(side) is not None:
                 return [[m[r % len(m)][oc % len(m[0])] for oc in disp] for r in range(n)]
             return m
         out = []
@@ -436,7 +585,7 @@ class C07(layfamily.Family):
                           (isinstance(spec["headers"], list) and len(spec["headers"]) > 0)
             bin_ = dict(isFirst=pno == 1, isLast=pno == P, start=data[0][0][1], height=len(data), width=len(disp),
                         top=processed("border_top", ""), bottom=processed("border_bottom", ""),
-                        bodyFirst=[[info["bf"]]], bodyTopOrig=body.get("border_top") or [[""]],
+                        bodyFirst=[[info["bf"]]], bodyTopOrig=mat_of(body.get("border_top"), ""),
                         bodyLast=[[info["bl"]]], pageFirst=info["pf"], pageLast=info["pl"],
                         hasHeaders=bool(has_headers), fnTableHere=fn_here, srcTableHere=src_here)
             obs_top = [self.edges(r, "t") for _, r in data]
@@ -517,6 +666,11 @@ class C07(layfamily.Family):
         return [[b for b in p if b[0] in ("data", "footnote", "source", "colHeader")] for p in pages]
 
     def nontrivial(self, spec, info, ob):
+        if info.get("gen") == "patterns" and info.get("removed") and \
+                any("cycle shifted" in lab for lab in info.get("labels") or []):
+            # a short per-column pattern whose cycle the removed columns shift: any number of pages
+            return [info["strategy"], "patterns", str(spec["df"]["cols"]), str([spec["body"].get(s) for s in self.SIDES]),
+                    len(ob["pages"])]
         if len(ob["pages"]) >= 2:
             return [info["strategy"], info["header_mode"], info["footnote"], info["source"], str(info["placements"]),
                     info["pf"], info["pl"], info["bf"], info["bl"], str(info["user"]), len(ob["pages"]),
@@ -604,6 +758,10 @@ def run(res, build):
         res.count("strategy:" + str(info.get("strategy")))
         res.count("header:" + str(info.get("header_mode")))
         res.count(f"fn:{info['footnote']}/src:{info['source']}")
+        for lab in info.get("labels") or []:      # input classes the pattern stream names itself
+            res.count(str(lab))
+        if info.get("gen") == "patterns":
+            res.count("pattern:documents" + (" with removed columns" if info.get("removed") else " without removal"))
         if info.get("strategy") in ("multi", "plain-empty"):
             frames, _ = fam.sections_of(o["spec"])
             rows = [len(f["rows"]) for f in frames]
